@@ -3,7 +3,7 @@
     ALIGNB and relative branches) the emission fold is a plain concatenation, from any starting
     output and any origin: emitting A then B gives bytes(A) ++ bytes(B). *)
 From Coq Require Import List ZArith String Bool.
-From Gosk Require Import Base.Bytes Model.Ast Model.Asm Lemmas.AsmLemmas.
+From Gosk Require Import Base.Bytes Model.Ast Model.Eval Model.Asm Model.Encoder Check.Common Lemmas.AsmLemmas Lemmas.C14Program.
 Import ListNotations.
 Local Open Scope Z_scope.
 
@@ -30,3 +30,33 @@ Theorem C14_append_only : forall E m st dol os acc d bs d',
   codegen E m st dol acc d os = GOk bs d' -> exists tail, bs = acc ++ tail.
 Proof. exact codegen_prefix. Qed.
 Print Assumptions C14_append_only.
+
+(** Program level.  [closed st]: an instruction, data, RESB, INT, RET or no-operand statement none of whose operands uses `$`
+    (labels, EQU, directives, ALIGNB, ORG and relative branches are what the property excludes: they are how statements
+    are meant to influence one another).  In either mode, if A and B assemble on their own, A;B assembles to the bytes
+    of A followed by the bytes of B, and is diagnosed exactly when one of them is - for any encoder, in particular the
+    tabulated gosk encoder. *)
+Theorem C14_program_concat : forall (E : encoder) md A B bA dA sA bB dB sB,
+  Forall (fun st => closed st = true) A -> Forall (fun st => closed st = true) B ->
+  assemble E (hdr md ++ A) = Done bA dA sA -> assemble E (hdr md ++ B) = Done bB dB sB ->
+  exists s, assemble E (hdr md ++ A ++ B) = Done (bA ++ bB) (dA || dB) s.
+Proof. exact program_concat. Qed.
+Print Assumptions C14_program_concat.
+
+(* pass-1 frame behind it: what a closed statement does to any state is what it does to the blank state of the same mode
+   and symbol table, appended *)
+Theorem C14_statement_frame : forall (E : encoder) s st, closed st = true -> mac s = [] -> stuck s = false ->
+  Framed s (step E s st) (step E (canon (bmode s) (sym s)) st).
+Proof. exact step_frame. Qed.
+Print Assumptions C14_statement_frame.
+
+Local Open Scope string_scope. Local Open Scope list_scope.
+Example C14_program_nonvacuous :
+  let A := [SMnem "MOV" [ident "AX"; num 1]; SMnem "IMUL" [ident "ECX"; num 4]] in
+  let B := [SMnem "DB" [num 1; num 2]; SMnem "ADD" [ident "BX"; num (-128)]] in
+  forallb closed (A ++ B) = true /\
+  match assemble gosk_encoder (hdr M32 ++ A), assemble gosk_encoder (hdr M32 ++ B), assemble gosk_encoder (hdr M32 ++ A ++ B) with
+  | Done a false _, Done b false _, Done ab false _ => (a, b, ab)
+  | _, _, _ => ([], [], [])
+  end = ([102; 184; 1; 0; 105; 201; 4; 0; 0; 0], [1; 2; 102; 131; 195; 128], [102; 184; 1; 0; 105; 201; 4; 0; 0; 0; 1; 2; 102; 131; 195; 128]).
+Proof. split; vm_compute; reflexivity. Qed.
